@@ -30,6 +30,9 @@ type wrapper struct {
 	// lock operations found in a nested statement (branch, loop, closure): the straight-line
 	// reading of the body would be wrong
 	nestedLockOps int
+	// unlocks that are plain statements rather than deferred calls: a panic between lock and
+	// unlock would leave the lock held
+	explicitUnlocks int
 }
 
 func main() {
@@ -129,12 +132,15 @@ func main() {
 				}
 				return ev{}, false
 			}
+			// a scope is a function body: the wrapper's own, or a function literal that is called on
+			// the spot (`x := func() { … }()`), whose deferred calls run when that literal returns
+			var walkStmts func(stmts []ast.Stmt, nested bool, deferred *[]ev)
 			var walkExpr func(n ast.Node, nested bool, inGo bool)
 			walkExpr = func(n ast.Node, nested bool, inGo bool) {
 				ast.Inspect(n, func(x ast.Node) bool {
 					switch t := x.(type) {
 					case *ast.FuncLit:
-						// a closure: anything inside runs some other time
+						// a closure that is not called here: anything inside runs some other time
 						walkExpr(t.Body, true, inGo)
 						return false
 					case *ast.CallExpr:
@@ -142,14 +148,23 @@ func main() {
 						for _, a := range t.Args {
 							walkExpr(a, nested, inGo)
 						}
+						if lit, ok := t.Fun.(*ast.FuncLit); ok && !inGo {
+							var d []ev
+							walkStmts(lit.Body.List, nested, &d)
+							w.body = append(w.body, d...)
+							return false
+						}
 						if e, ok := classify(t); ok {
 							isLock := e.kind == "acqR" || e.kind == "acqW" || e.kind == "rel"
 							switch {
 							case inGo && (e.kind == "wrapperCall" || e.kind == "call"):
 								w.body = append(w.body, ev{"spawn", e.name})
-							case nested && isLock:
+							case (nested || inGo) && isLock:
 								w.nestedLockOps++
 							default:
+								if e.kind == "rel" {
+									w.explicitUnlocks++
+								}
 								w.body = append(w.body, e)
 							}
 						}
@@ -163,13 +178,12 @@ func main() {
 					return true
 				})
 			}
-			var walkStmts func(stmts []ast.Stmt, nested bool)
-			walkStmts = func(stmts []ast.Stmt, nested bool) {
+			walkStmts = func(stmts []ast.Stmt, nested bool, deferred *[]ev) {
 				for _, st := range stmts {
 					switch t := st.(type) {
 					case *ast.DeferStmt:
 						if e, ok := classify(t.Call); ok && !nested {
-							w.deferred = append([]ev{e}, w.deferred...)
+							*deferred = append([]ev{e}, *deferred...)
 						} else if ok {
 							w.nestedLockOps++
 						} else {
@@ -179,22 +193,22 @@ func main() {
 						walkExpr(t.Call, true, true)
 					case *ast.IfStmt:
 						if t.Init != nil {
-							walkStmts([]ast.Stmt{t.Init}, nested)
+							walkStmts([]ast.Stmt{t.Init}, nested, deferred)
 						}
 						walkExpr(t.Cond, nested, false)
 						// calls into the enforcer inside a branch are kept (they are accesses made
 						// while whatever is held is held); lock operations there are not straight-line
-						walkStmts(t.Body.List, true)
+						walkStmts(t.Body.List, true, deferred)
 						if t.Else != nil {
-							walkStmts([]ast.Stmt{t.Else}, true)
+							walkStmts([]ast.Stmt{t.Else}, true, deferred)
 						}
 					case *ast.BlockStmt:
-						walkStmts(t.List, nested)
+						walkStmts(t.List, nested, deferred)
 					case *ast.ForStmt:
-						walkStmts(t.Body.List, true)
+						walkStmts(t.Body.List, true, deferred)
 					case *ast.RangeStmt:
 						walkExpr(t.X, nested, false)
-						walkStmts(t.Body.List, true)
+						walkStmts(t.Body.List, true, deferred)
 					case *ast.SwitchStmt, *ast.TypeSwitchStmt, *ast.SelectStmt:
 						walkExpr(t, true, false)
 					default:
@@ -202,7 +216,7 @@ func main() {
 					}
 				}
 			}
-			walkStmts(fd.Body.List, false)
+			walkStmts(fd.Body.List, false, &w.deferred)
 			w.body = append(w.body, w.deferred...)
 			wrappers = append(wrappers, w)
 		}
@@ -245,7 +259,7 @@ func main() {
 		if i == len(wrappers)-1 {
 			sep = ""
 		}
-		fmt.Printf("  { name := %q, body := [%s] }%s  -- %s:%d\n", w.name, strings.Join(parts, ", "), sep, w.file, w.line)
+		fmt.Printf("  { name := %q, body := [%s] }%s  -- %s\n", w.name, strings.Join(parts, ", "), sep, w.file)
 	}
 	fmt.Println("]")
 	fmt.Println()
@@ -255,6 +269,15 @@ func main() {
 	}
 	fmt.Println("/-- lock operations found inside a branch, loop, closure or goroutine (the straight-line reading needs 0) -/")
 	fmt.Printf("def nestedLockOps : Nat := %d\n", nested)
+	fmt.Println()
+	var explicit []string
+	for _, w := range wrappers {
+		if w.explicitUnlocks > 0 {
+			explicit = append(explicit, fmt.Sprintf("%q", w.name))
+		}
+	}
+	fmt.Println("/-- wrappers that unlock by a plain statement instead of a deferred call (a panic in between leaks the lock) -/")
+	fmt.Printf("def explicitUnlocks : List String := [%s]\n", strings.Join(explicit, ", "))
 	fmt.Println()
 	fmt.Println("/-- exported *Enforcer methods that *SyncedEnforcer does not wrap (promoted unsynchronised) -/")
 	fmt.Println("def unwrapped : List String := [")
